@@ -4,11 +4,12 @@
 // The model (ghost state, environment step, file-system externs) is in /verif/specs/70_locking.spec.
 package locking
 
-// The liveness probe is accurate at the moment it runs (signal 0); PIDs are not reused (assumption, see DESIGN).
+// The liveness probe is accurate at the moment it runs (signal 0: nil or EPERM mean the process exists); PIDs are not
+// reused (assumption, see DESIGN). Verified against the model of os.FindProcess / Process.Signal in 70_locking.spec.
 //@ func processRunning(pid) (r)
-//@   trusted
 //@   pure
-//@   ensures [probe] r <==> has(alive, pid)
+//@   ensures [probe] pid > 0 ==> (r <==> has(alive, pid))
+//@   ensures [nonpositive_is_not_a_process] pid <= 0 ==> !r
 
 // Guarantee side of the protocol: a step of this process removes the lock file only if it is its own or its creator is
 // dead, and leaves the content empty or equal to the creator's PID. Lock returning nil means this process holds the lock.
